@@ -8,6 +8,9 @@ harness without geff; the object itself is then made by GeffMetadata.model_valid
   attrs    GeffMetadata.write on a real zarr-2 / zarr-3 group with prior (foreign) attributes, all attributes
            afterwards, GeffMetadata.read                                  vs  md_write / md_read
   read     GeffMetadata.read on arbitrary group states                    vs  md_read
+  attrsk   the same write on a store that also holds member groups / arrays / consolidated metadata, observed on the RAW
+           KEYS of the store before and after (harness/keystore.py: never the zarr hierarchy API)   vs  MetaKeys.md_write_k / md_read_k
+  surrogate  (oracle only) a str field holding a lone surrogate: text, zarr 2, zarr 3 round trips
   vobj     {"geff": model_dump(mode="json")} judged by jsonschema (python3-vt) under geff-schema.json and under the
            freshly exported schema                                       vs  Schema.validates on both regenerated terms
   vdoc     the same for every single structural mutation of such a document
@@ -64,7 +67,12 @@ ASSUMPTIONS = [
     "offered to float/bool fields by the mutations are non-numeric ('zz')",
     "jsonschema 4.26 (Draft 2020-12) under python3-vt is the reference semantics of the schema keywords; Schema.validates is tied "
     "to it on every judged document under both schemas",
-    "zarr format 2 and 3 differ only in where the attribute map is kept: one model (an attribute map or no group)",
+    "zarr format 2 and 3 differ only in where the attribute map is kept: one model (an attribute map or no group) for the attrs / read "
+    "cases; the attrsk cases tie the key-level model MetaKeys.md_write_k (which document is rewritten, which members of a format-3 "
+    "group document are kept, which format a missing root group is created in) on the raw keys; the consolidated-metadata cache "
+    ".zmetadata of a format-2 store (zarr refreshes it) is left out of the comparison, like in KeyStore.v",
+    "strings are well-formed Unicode (the model's strings are UTF-8 bytes); a python str holding a lone surrogate is accepted by "
+    "GeffMetadata and cannot be encoded: open finding lone-surrogate-json-text, oracle-only cases",
 ]
 
 TOP_OPT = ["axes", "sphere", "ellipsoid", "track_node_props", "related_objects", "display_hints", "extra"]
@@ -371,7 +379,7 @@ BAD_BY_KEY = {
     ("axis", "type"): ["Space", "angle", "", "SPACE"],
     ("geff", "geff_version"): ["", "v1.3", "1", "1.", "x.1", " 1.2", "1..2"],
     ("pm", "identifier"): [""],
-    ("pm", "dtype"): [""],
+    ("pm", "dtype"): ["", ",", "i4,,", "01i4", "Int8", "float16", "l", "=i4", "U0"],   # schema: any non-empty string; the parser decides
 }
 
 
@@ -474,6 +482,10 @@ def object_cases(doc, rng, n_mut, block, cli=False, finite=True):
     yield dict(tag, kind="text", m=doc, how=rng.choice(HOWS))
     for fmt in (2, 3):
         yield dict(tag, kind="attrs", m=doc, fmt=fmt, prior=gen_prior(rng), how=rng.choice(HOWS))
+    r2 = random.Random(json.dumps(doc, sort_keys=True) + block)   # own stream: the cases above stay what they were
+    for fmt in (2, 3):
+        yield dict(tag, kind="attrsk", m=doc, fmt=fmt, prior=gen_prior(r2), how=r2.choice(HOWS),
+                   members=r2.choice([[], ["nodes"], ["nodes", "edges", "other"]]), cons=r2.random() < 0.3)
     if cli and finite:
         yield dict(tag, kind="cli", m=doc, fmt=rng.choice([2, 3]), how=rng.choice(HOWS))
     if not finite:
@@ -490,8 +502,8 @@ def object_cases(doc, rng, n_mut, block, cli=False, finite=True):
 
 
 def parse_ok(label):
-    # mutations whose parse outcome is inside the modelled coercions (C07): all but unmodelled dtype spellings
-    return not label.startswith("type:pm.dtype") and not label.startswith("type:root") and not label.startswith("drop:root") \
+    # mutations whose parse outcome is inside the modelled coercions (C07); dtype values are (numpy's dtype-string grammar is modelled)
+    return not label.startswith("type:root") and not label.startswith("drop:root") \
         and not label.startswith("unknown:root") and not label.startswith("absent:root")
 
 
@@ -512,6 +524,8 @@ def generate(rng: random.Random, tier: str):
     for st in read_states():
         for fmt in (2, 3):
             yield {"kind": "read", "state": st, "fmt": fmt, "block": "read-states", "finite": True}
+    for field in ("sphere", "ellipsoid"):
+        yield {"kind": "surrogate", "m": minimal_doc(), "field": field, "block": "lone-surrogate", "finite": True}
     for i in range(120 if quick else 600):
         yield from object_cases(gen_md(rng), rng, 10 if quick else 20, "random", cli=(i % (8 if quick else 5) == 0))
     for i in range(40 if quick else 300):
@@ -625,7 +639,7 @@ def run_impl(c):
     from zarr.storage import MemoryStore
 
     k = c["kind"]
-    if k in ("dump", "text", "attrs", "cli", "vobj"):
+    if k in ("dump", "text", "attrs", "attrsk", "cli", "vobj"):
         try:
             m = build(c["m"], c.get("how", "validate"))
             canon = enc(m.model_dump())
@@ -651,6 +665,75 @@ def run_impl(c):
         return {"pub": v["pub"], "exp": v["exp"]}
     if k == "parse":
         return {"back": outcome(lambda: GeffMetadata.model_validate(to_py(c["doc"])))}
+    if k == "attrsk":
+        from harness import keystore
+        from harness.storelib import Interner
+
+        store = MemoryStore()
+        fmt_after = 3
+        if c["prior"] is not None:
+            fmt_after = c["fmt"]
+            g = zarr.open_group(store, mode="a", zarr_format=c["fmt"])
+            if c["prior"]:
+                g.attrs.put(to_py(c["prior"]))
+            for i, name in enumerate(c["members"]):
+                sub = g.create_group(name)
+                sub.attrs["geff"] = {"not": "the root"}
+                a = sub.create_array("ids", shape=(3,), dtype="uint8" if i % 2 == 0 else "int64")
+                a[:] = [1, 2, 3 + i]
+            if c["cons"]:
+                zarr.consolidate_metadata(store)
+        inter = Interner()
+        before = keystore.try_raw_dump(store, inter, c["fmt"] if c["prior"] is not None else 3)
+        err = None
+        try:
+            m.write(store)
+        except Exception as e:
+            err = common.exn_name(e)
+        after = keystore.try_raw_dump(store, inter, fmt_after)
+        strict = True
+        for kk, buf in store._store_dict.items():
+            if kk.split("/")[-1] in keystore.DOC_NAMES:
+                try:
+                    json.loads(buf.to_bytes().decode("utf8"), parse_constant=lambda x: (_ for _ in ()).throw(ValueError(x)))
+                except ValueError:
+                    strict = False
+        back = [None]
+
+        def f():
+            back[0] = GeffMetadata.read(store)
+            return back[0]
+        out = outcome(f)
+        untouched = None
+        if before is not None and after is not None:
+            b = {"/".join(kc): v for kc, v in before["items"]}
+            a = {"/".join(kc): v for kc, v in after["items"]}
+            untouched = all(a.get(kk) == v for kk, v in b.items() if kk not in (".zattrs", "zarr.json"))
+        return {"canon": canon, "before": before, "after": after, "write_exc": err, "back": out, "strict_json": strict,
+                "untouched": untouched, "fmt_after": fmt_after, "equal": back[0] is not None and same(back[0], m)}
+    if k == "surrogate":
+        # oracle only: a lone surrogate in a str field
+        kw = dict(to_py(c["m"]))
+        kw[c["field"]] = "a\ud800b"
+        res = {}
+        try:
+            m2 = GeffMetadata.model_validate(kw)
+        except Exception as e:
+            return {"accepted": False, "exc": type(e).__name__}
+        res["accepted"] = True
+        for via in ("text", "zarr2", "zarr3"):
+            try:
+                if via == "text":
+                    b = GeffMetadata.model_validate_json(m2.model_dump_json())
+                else:
+                    st = MemoryStore()
+                    zarr.open_group(st, mode="a", zarr_format=int(via[-1]))
+                    m2.write(st)
+                    b = GeffMetadata.read(st)
+                res[via] = "equal" if same(b, m2) else "differs"
+            except Exception as e:
+                res[via] = type(e).__name__
+        return res
     if k in ("attrs", "read"):
         store = MemoryStore()
         prior = c["prior"] if k == "attrs" else c["state"]
@@ -718,7 +801,7 @@ def coq_case(c, o):
 def _coq_case(c, o):
     k = c["kind"]
     gv = cstr(SC()["gv"])
-    if k in ("dump", "text", "attrs", "cli", "vobj") and ("build_error" in o or o["canon"] != c["m"]):
+    if k in ("dump", "text", "attrs", "attrsk", "cli", "vobj") and ("build_error" in o or o["canon"] != c["m"]):
         # the object does not exist / is not the one the document denotes: the model and the code disagree on the
         # format itself (a field added, removed or renamed); reported as a correspondence mismatch
         return f"(IDump {c_md(c['m'])}, OJson (JStr {cstr('object-differs-from-its-canonical-document')}))"
@@ -736,6 +819,18 @@ def _coq_case(c, o):
         return f"(IAttrs {gv} {c_state(c['prior'])} {c_md(c['m'])}, OAttrs {to_jv(o['after'])} {c_res_md(o['back'])})"
     if k == "read":
         return f"(IRead {gv} {c_state(c['state'])}, OParse {c_res_md(o['back'])})"
+    if k == "attrsk":
+        from harness import keystore
+
+        if o["before"] is None or o["after"] is None or o["write_exc"] is not None:
+            return None   # a key the raw reader cannot decode, or the write raised (the oracle reports that)
+        kb, lossy_b = keystore.c_kstore(o["before"])
+        ka, lossy_a = keystore.c_kstore(o["after"])
+        if lossy_b or lossy_a:
+            return None
+        return f"(IAttrsK {gv} {kb} {c_md(c['m'])}, OAttrsK {ka} {c_res_md(o['back'])})"
+    if k == "surrogate":
+        return None
     if k in ("vobj", "vdoc"):
         if not isinstance(o["pub"], bool) or not isinstance(o["exp"], bool):
             return None
@@ -761,7 +856,25 @@ def oracle(c, o):
             return Failure(c, o, f"published schema says {o['pub']}, schema exported from the model says {o['exp']}",
                            {"why": "schema-drift", "label": c.get("label", "valid-object").split(":")[0]})
         return None
+    if k == "surrogate":
+        if o.get("accepted") and any(o[v] != "equal" for v in ("text", "zarr2", "zarr3")):
+            bad = sorted(v for v in ("text", "zarr2", "zarr3") if o[v] != "equal")
+            return Failure(c, o, f"GeffMetadata accepts {c['field']}='a\\ud800b' (a lone surrogate) but the object does not survive {bad}: "
+                                 f"{ {v: o[v] for v in bad} }", {"why": "roundtrip", "via": bad[0], "surrogate": True})
+        return None
+    if k == "attrsk":
+        if o["write_exc"] is not None:
+            return Failure(c, o, f"GeffMetadata.write raised {o['write_exc']} on a store whose root is absent or a group", {"why": "write-raises"})
+        if o["untouched"] is False:
+            return Failure(c, o, "GeffMetadata.write changed a key other than the root's attribute document", {"why": "foreign-keys", "via": f"zarr{c['fmt']}"})
     if not c.get("finite", True):
+        return None
+    if k == "attrsk":
+        if o["back"][0] != "ok" or not o["equal"]:
+            return Failure(c, o, f"GeffMetadata.read after write (zarr {c['fmt']}, store with members) does not return an equal object",
+                           {"why": "roundtrip", "via": f"zarr{c['fmt']}"})
+        if not o["strict_json"]:
+            return Failure(c, o, "a metadata document of the store is not JSON (Infinity / NaN literal)", {"why": "invalid-json-document"})
         return None
     if k == "text":
         if o["back"][0] != "ok" or not o["equal"]:
@@ -782,7 +895,7 @@ def oracle(c, o):
 
 
 def nontrivial(c, o):
-    if c["kind"] in ("vdoc", "parse", "read"):
+    if c["kind"] in ("vdoc", "parse", "read", "surrogate"):
         return True
     m = c["m"]
     return bool(m["axes"] or m["node_props_metadata"] or m["edge_props_metadata"] or m["related_objects"] or m["extra"])
@@ -797,6 +910,10 @@ def describe(c, o):
         s += f"/{c['label'].split(':')[0]}/pub={o['pub']}"
     elif k in ("parse", "read"):
         s += f"/{o['back'][0] if o['back'][0] == 'ok' else o['back'][1]}"
+    elif k == "surrogate":
+        s += f"/{c['field']}"
+    elif k == "attrsk":
+        s += f"/zarr{c['fmt']}/members={len(c['members'])}/cons={c['cons']}/{'no-group' if c['prior'] is None else 'group'}"
     elif k == "attrs":
         s += f"/zarr{c['fmt']}/{'no-group' if c['prior'] is None else ('old-geff' if 'geff' in c['prior'] else 'foreign')}"
     if not c.get("finite", True):
